@@ -41,9 +41,11 @@ var links = []string{
 	"https://m.example/é字",
 	"https://m.example/" + strings.Repeat("x", 4000),
 	"https://m.example/?a=1&b=2#frag",
+	// links that are exactly a placeholder (possible for links in a post body)
+	"%url", "%mimetype", "%subtype", "%supertype",
 }
 
-var mediaTypes = []string{"", "image/png", "video/mp4; codecs=avc1", "not a type", "%url/%subtype"}
+var mediaTypes = []string{"", "image/png", "video/mp4; codecs=avc1", "not a type", "%url/%subtype", "%mimetype/%supertype", "%supertype/%url"}
 
 type hookCase struct {
 	Hook      []string `json:"hook"`
@@ -110,6 +112,9 @@ func buildWorld(link, mt string) *fedi.Net {
 // variant gives every slot of a page its own link, so that consecutive opens on one
 // page (with one configuration object) must deliver different arguments.
 func variant(link, slot string) string {
+	if strings.HasPrefix(link, "%") {
+		return link // a link that is exactly a placeholder stays exactly that
+	}
 	if strings.Contains(link, "?") {
 		return link + "&slot=" + slot
 	}
@@ -308,7 +313,7 @@ func allHooks(maxArgs int) [][]string {
 func main() {
 	r := ev.New("C20", "exploration",
 		"hook = dump program + every argument sequence of length <=2 (quick) / <=3 (thorough) over {%url,%mimetype,%supertype,%subtype,x%url,%url%url,%URL,--,\"\"} plus hooks whose program is a placeholder; "+
-			"x 17 hostile links (one of them the path of an executable) x 5 media types x 6 entry points (o on a note and on a video, number+Enter for a body link and an attachment, p and b on an actor; every slot has its own link), each page's entry points pressed in sequence and again in reverse order under one configuration object, through ui.State.Update with a real exec; "+
+			"x 21 hostile links (one the path of an executable, four exactly a placeholder) x 7 media types (three made of placeholder-like tokens) x 6 entry points (o on a note and on a video, number+Enter for a body link and an attachment, p and b on an actor; every slot has its own link), each page's entry points pressed in sequence and again in reverse order under one configuration object, through ui.State.Update with a real exec; "+
 			"distinct_nontrivial = cases with at least one argument where a process is started")
 	vdump = filepath.Join(ev.VerifDir(), "bin", "vdump")
 	if _, err := os.Stat(vdump); err != nil {
@@ -342,7 +347,11 @@ func main() {
 	type grp struct{ link, mt string }
 	var groups []grp
 	for _, l := range links {
-		for _, m := range mediaTypes {
+		for mi, m := range mediaTypes {
+			// quick: the placeholder-like media types are combined with three links only
+			if !r.Thorough() && mi >= 4 && l != links[0] && l != vdump && l != "%mimetype" {
+				continue
+			}
 			groups = append(groups, grp{l, m})
 		}
 	}
